@@ -733,7 +733,12 @@ func recipeOneof(c *ctx) {
 		k := 0
 		for _, act := range choices {
 			for _, pri := range choices {
-				for variant := 0; variant < 2; variant++ {
+				for variant := 0; variant < 3; variant++ {
+					// third variant: the active scalar branch holds its zero value and its attribute is known and NOT null
+					// (what a configuration that sets the branch to "" / 0 / false plans): the oneof holds that branch
+					if variant == 2 && (act == nil || act.Shape != "prim" || act.Ptr || act.Temporal) {
+						continue
+					}
 					k++
 					// every (active branch, prior holder, variant) combination is run unless the group is
 					// very large; then a deterministic sample
@@ -750,7 +755,7 @@ func recipeOneof(c *ctx) {
 					r := c.rnd.Fork(hashName(fmt.Sprintf("%s/%s/%s/%d", g, an, pn, variant)))
 					v := c.zero()
 					m := MFull
-					if variant == 1 && act != nil {
+					if variant >= 1 && act != nil {
 						m = MZero // active branch with zero payload
 					}
 					v.SetField(g, mk(act, r, m))
@@ -770,11 +775,28 @@ func recipeOneof(c *ctx) {
 							}
 						}
 					}
+					if variant == 2 {
+						if a, ok := obj.Attr(act.Attr); ok {
+							a.Null, a.Unknown = false, false
+						}
+					}
 					prior := c.zero()
 					prior.SetField(g, mk(pri, r.Fork(9), MFull))
 					id2, fr := c.From("oneof-from", obj, prior)
 					if fr.Panic != "" {
 						c.Oracle("C07", id2, false, "panic", "CopyFrom panicked")
+						continue
+					}
+					if variant == 2 {
+						// exactly that branch with that (zero) value, not its normal form
+						want, got := v.Field(g), fr.Val.Field(g)
+						ok := got != nil && want != nil && want.BranchName() != "" && got.BranchName() == want.BranchName() &&
+							got.Elems0() != nil && want.Elems0() != nil && EqualGV(c.p.b.NF(want.Elems0(), nil), c.p.b.NF(got.Elems0(), nil))
+						what := ""
+						if !ok {
+							what = fmt.Sprintf("holder %s: the branch attribute %s is known, not null and holds the zero value, read back %s, expected %s", g, act.Attr, GVSx(got), GVSx(want))
+						}
+						c.Oracle("C07", id2, ok, "from-holder-known-zero:"+DescribeField(act), what)
 						continue
 					}
 					// compared on the fields the schema describes (an excluded field of a branch message is not copied)
@@ -1408,6 +1430,7 @@ func recipeHooks(c *ctx) {
 			customs = append(customs, f)
 		}
 	}
+	recipeHooksPromoted(c)
 	if len(customs) == 0 {
 		return
 	}
@@ -1531,4 +1554,97 @@ func recipeHooks(c *ctx) {
 		}
 		c.Oracle("C17", idf, len(fails) == 0, "from-hook", strings.Join(fails, "; "))
 	}
+}
+
+// recipeHooksPromoted: custom-type fields promoted from nullable embedded messages. The hooks are still
+// called — CopyTo with the field value (the zero value when the embedded message is not set), CopyFrom with the
+// attribute or nil when it is missing, which is reported — and nothing panics, whatever the other promoted
+// attributes hold.
+func recipeHooksPromoted(c *ctx) {
+	var customs []*spec.EField
+	for _, f := range c.info.Fields {
+		if f.Shape == "custom" && len(f.Via) > 0 && f.Oneof == "" {
+			customs = append(customs, f)
+		}
+	}
+	if len(customs) == 0 {
+		return
+	}
+	sort.Slice(customs, func(i, j int) bool { return customs[i].GoName < customs[j].GoName })
+	for i := 0; i < c.n; i++ {
+		r := c.rnd.Fork(uint64(1000 + i))
+		mode := MRand
+		if i%3 == 2 {
+			mode = MZero // the embedded messages are nil
+		}
+		v := c.p.b.GenGo(c.rt, r, mode, 0)
+		idt, tr := c.To("hooks-to", v, EmptyOf(c.objTy))
+		if tr.Panic != "" {
+			c.Oracle("C17", idt, false, "panic", "CopyTo panicked with a custom-type field promoted from an embedded message")
+			continue
+		}
+		var fails []string
+		for _, f := range customs {
+			n := 0
+			for _, call := range tr.Hooks {
+				if call.Hook == "to" && call.Suffix == f.Suffix {
+					n++
+				}
+			}
+			if n < 1 {
+				fails = append(fails, fmt.Sprintf("%s: CopyTo%s not called", f.Path, f.Suffix))
+			}
+		}
+		c.Oracle("C17", idt, len(fails) == 0, "to-hook-promoted", strings.Join(fails, "; "))
+
+		// from: every custom attribute deleted in turn, the other attributes null (so that nothing else allocates
+		// the embedded message) or as written
+		obj := CloneTV(tr.Obj)
+		missing := customs[i%len(customs)]
+		if i%2 == 0 {
+			for _, f := range c.info.Fields {
+				if len(f.Via) > 0 && f.Shape != "custom" {
+					if a, ok := obj.Attr(f.Attr); ok {
+						obj.SetAttr(f.Attr, NullOf(a))
+					}
+				}
+			}
+		}
+		obj.DelAttr(missing.Attr)
+		prior := c.p.b.GenGo(c.rt, r.Fork(5), MFull, 0)
+		idf, fr := c.From("hooks-from", obj, prior)
+		if fr.Panic != "" {
+			c.Oracle("C17", idf, false, "panic", "CopyFrom panicked with the attribute of a promoted custom-type field missing: "+fr.Panic)
+			continue
+		}
+		fails = nil
+		for _, f := range customs {
+			n := 0
+			for _, call := range fr.Hooks {
+				if call.Hook == "from" && call.Suffix == f.Suffix && call.HasA == (f != missing) {
+					n++
+				}
+			}
+			if n < 1 {
+				fails = append(fails, fmt.Sprintf("%s: CopyFrom%s not called with the attribute (nil when missing)", f.Path, f.Suffix))
+			}
+		}
+		found := false
+		for _, d := range fr.Diags {
+			if d.Kind == "ReadMissing" && lastSeg(d.Path) == lastSeg(missing.Path) {
+				found = true
+			}
+		}
+		if !found {
+			fails = append(fails, missing.Path+": missing attribute not reported")
+		}
+		c.Oracle("C17", idf, len(fails) == 0, "from-hook-promoted", strings.Join(fails, "; "))
+	}
+}
+
+// NullOf returns the value with the null flag set (payload kept: a payload under null is never read).
+func NullOf(a *TV) *TV {
+	n := CloneTV(a)
+	n.Null, n.Unknown = true, false
+	return n
 }
